@@ -221,7 +221,6 @@ def run_cell(pane, world, res, target, shape, form, mask, inner_mode, only_dir=N
     from pane.errors import ConvertError
     pc = sys.modules['pane.convert']
     from pane.convert import make_converter
-    from pane.classes import _make_subclass
     X = world.types[target]
     srcs = {'F': bool(mask & 1), 'C': bool(mask & 2), 'I': inner_mode in ('own', 'inherited'), 'O': bool(mask & 4), 'G': bool(mask & 8)}
     call_unrelated = bool(mask & 16)
@@ -380,7 +379,7 @@ def run_cell(pane, world, res, target, shape, form, mask, inner_mode, only_dir=N
     finally:
         del pc._GLOBAL_HANDLERS[1:]
         make_converter.cache.clear()
-        _make_subclass.cache_clear()
+        core.clear_subscription_memo()
     res['states'] += 1
 
 
@@ -551,6 +550,43 @@ def run_io_entry_points(pane, world, res):
                                    {'histories': True, 'what': 'io'}, 3)
 
 
+def run_init_false(pane, world, res):
+    """A field that is not a constructor argument (init=False) is still WRITTEN: on the way out the handlers must reach it
+    like any other field of its type (call level, the class itself, an enclosing class)."""
+    from pane.convert import make_converter
+    for form in FORMS:
+        for where in ('call', 'class', 'outer'):
+            make_converter.cache.clear()
+            h = world.handler(int, P_CALL, form)
+            def post(self):
+                # (the documented way: the class fills its init=False fields in here)
+                object.__setattr__(self, 'f', ALLP)
+                object.__setattr__(self, 'h', [ALLP])
+            Inner = type('InnerNF', (pane.PaneBase,), {'__annotations__': {'g': int, 'f': int, 'h': t.List[int]},
+                                                       'f': pane.field(init=False), 'h': pane.field(init=False),
+                                                       '__post_init__': post,
+                                                       '__module__': 'mc.generated'}, **({'custom': h} if where == 'class' else {}))
+            Outer = type('OuterNF', (pane.PaneBase,), {'__annotations__': {'inner': Inner}, '__module__': 'mc.generated'},
+                         **({'custom': h} if where == 'outer' else {}))
+            res['states'] += 1
+            res['evals'] += 1
+            res['validated'] += 1
+            res['transitions'] += 1
+            res['nontrivial'].add(f"init_false|{form}|{where}")
+            try:
+                obj = Outer.make_unchecked(inner=Inner(g=ALLP))
+                d = pane.into_data(obj, Outer, custom=h if where == 'call' else None)
+                got = (d['inner']['g'], d['inner']['f'], d['inner']['h'][0])
+            except Exception as e:  # noqa
+                got = f"{type(e).__name__}: {core.sstr(e, 60)}"
+            want = (ALLP // P_CALL,) * 3
+            if got != want:
+                core.add_violation(res, {'kind': 'init_false_field_misses_handler', 'form': form, 'where': where},
+                                   f"{form} handler for int given at the {where} level: into_data of a class with g: int and the init=False "
+                                   f"fields f: int, h: List[int] wrote (g, f, h[0]) = {got!r}; the handler divides each by {P_CALL}: {want!r}",
+                                   {'histories': True, 'what': 'init_false'}, 3)
+
+
 def run_shard(shard, tier):
     pane = core.import_pane()
     warnings.simplefilter('ignore')
@@ -561,6 +597,7 @@ def run_shard(shard, tier):
         run_histories(pane, world, res)
         run_role_histories(pane, world, res)
         run_io_entry_points(pane, world, res)
+        run_init_false(pane, world, res)
         return res
     target, shape = TARGETS[shard['t']], SHAPES[shard['s']]
     for form in FORMS:
@@ -587,6 +624,7 @@ def replay(cell):
     if cell.get('mapping_exact') or cell.get('histories'):
         run_mapping_exact(pane, world, res)
         run_histories(pane, world, res)
+        run_init_false(pane, world, res)
         out = [v for lst in res['violations'].values() for v in lst]
         return [v for v in out if v['cell'] == cell] or out
     run_cell(pane, world, res, cell['t'], cell['s'], cell['form'], cell['mask'], cell['inner'])
